@@ -149,8 +149,10 @@ class FuzzyFinder(object):
 
     @staticmethod
     def _check_duplicate_attrs(attrs_list, attr):
+        # Only the same attribute of the same kind of object excludes a combination:
+        # a Section name and a Property name can be searched for together.
         for i in attrs_list:
-            if attr[1][0] == i[1][0]:
+            if attr[0] == i[0] and attr[1][0] == i[1][0]:
                 return False
         return True
 
